@@ -536,6 +536,40 @@ def t4_defined(prog, rep):
         rep.defer_broken("T4-defined: fewer than 5 stores into a sock_addr's name found")
 
 
+NTOP_NEED = {2: ("AF_INET", 16), 10: ("AF_INET6", 46)}
+
+
+def t4_ntop(prog, rep):
+    """Printing an address never fails for lack of room: every inet_ntop(family, src, dst, size) is given the space the
+    longest text of that family needs (INET_ADDRSTRLEN 16, INET6_ADDRSTRLEN 46, terminator included), and no more than dst
+    has.  (A short buffer makes inet_ntop fail with ENOSPC for the long addresses only.)"""
+    from .. import mem
+    n = 0
+    for up in ("util/sock_util.c",):
+        u = prog.unit(up)
+        for f in u.funcs:
+            if f.file != up:
+                continue
+            aliases = mem.local_aliases(f, u)
+            for c in f.calls("inet_ntop"):
+                n += 1
+                fam = norm(c.arg(0))
+                size = norm(c.arg(3))
+                need = NTOP_NEED.get(fam[1]) if fam[0] == "c" else None
+                dst = c.arg(2).strip()
+                obj = None
+                if dst is not None and dst.cls == "DeclRefExpr":
+                    t = u.types.get(dst.ty) or {}
+                    if t.get("kind") == "array":
+                        obj = t.get("size")
+                ok = need is not None and size[0] == "c" and size[1] >= need[1] and obj is not None and size[1] <= obj
+                rep.check(ok, "T4-ntop", "%s in %s" % (c.text[:50], f.name), c.where,
+                          "family %s needs %s bytes for its longest text; given %s, object of %s bytes" %
+                          (need[0] if need else show(fam), need[1] if need else "?", show(size), obj), function=f.name, construct="ntop-size")
+    if n < 2:
+        rep.defer_broken("T4-ntop: fewer than 2 inet_ntop calls found in sock_util.c")
+
+
 def t4(prog, rep):
     u = prog.unit("util/sock_util.c")
     rec = u.records.get("sock_addr")
@@ -672,6 +706,7 @@ def run(tier):
         t3(prog, rep)
         t4(prog, rep)
         t4_defined(prog, rep)
+        t4_ntop(prog, rep)
         t2_padding(prog, rep)
         t3_escape(prog, rep)
     rep.require_min("T1-endian", 12)
